@@ -68,12 +68,17 @@ type rForward struct {
 type rStreams struct {
 	chans map[string]chan *msgstream.MsgPack
 	seeks map[string]*msgstream.MsgPosition
+	opens map[string]int // how many times a stream of the vchannel was opened
 }
 
 func (s *rStreams) GetStreamChan(ctx context.Context, vchannel string, seek *msgstream.MsgPosition) (<-chan *msgstream.MsgPack, io.Closer, error) {
 	ch := make(chan *msgstream.MsgPack, 8)
 	s.chans[vchannel] = ch
 	s.seeks[vchannel] = seek
+	if s.opens == nil {
+		s.opens = map[string]int{}
+	}
+	s.opens[vchannel]++
 	n := 0
 	return ch, rNopCloser{&n}, nil
 }
